@@ -63,6 +63,20 @@ pub fn check_partition(snap: &VerifSnapshot, version: u32, quarantined: &[(u64, 
     Ok((live_blocks, free_blocks))
 }
 
+/// Persisted counters of the newest metadata copy against what the independent reader finds in the same image.
+pub fn check_counters(image: &[u8]) -> Result<(), (String, String)> {
+    let scan = indep::scan(image, None, false).map_err(|e| ("layout:unreadable".to_string(), format!("independent reader cannot read the file: {e}")))?;
+    let Some(meta) = scan.meta.as_ref() else { return Ok(()) };
+    let live_blocks: u64 = scan.records.values().map(|r| r.blocks).sum();
+    if meta.total_records != scan.records.len() as u64 || meta.total_size != live_blocks * BLOCK as u64 {
+        return Err((
+            "layout:metadata".into(),
+            format!("newest metadata copy (block {}): total_records {} total_size {} — the file holds {} live records in {} bytes", scan.meta_block, meta.total_records, meta.total_size, scan.records.len(), live_blocks * BLOCK as u64),
+        ));
+    }
+    Ok(())
+}
+
 pub fn check_image(image: &[u8], model: &Model, snap: &VerifSnapshot, version: u32) -> Result<(), (String, String)> {
     let scan = indep::scan(image, None, false).map_err(|e| ("layout:unreadable".to_string(), format!("independent reader cannot read the flushed file: {e}")))?;
     if scan.version != version {
